@@ -10,7 +10,7 @@
    by tokio and reported as JoinErrors by at_sim_end; they do not deactivate the module.
    Unwinding itself (that catch_unwind leaves tokio's and Rust's state intact) is not modelled. *)
 From Coq Require Import List NArith Bool.
-From DesVerif Require Import Life.Model Life.Base Life.Step Life.Trace Life.Frame Life.Inert Life.Events Life.Panic Life.Silent Life.Term Life.Stereo Life.Errors.
+From DesVerif Require Import Life.Model Life.Base Life.Step Life.Trace Life.Frame Life.Inert Life.Events Life.Panic Life.Silent Life.Term Life.Stereo Life.Errors Life.TearDown.
 Import ListNotations.
 Open Scope N_scope.
 
@@ -71,13 +71,23 @@ Print Assumptions C13_globals_released.
    number of start-up stages, and whatever m's left-over wake-ups do to the event set.
    (False of the code before 1526470 for every module with several start-up stages and before 9e87d89
    for catching ones: Refuted/C13.v, corpus/C13/multistage_panic.txt.)
-   Not covered: the tear-down records of the other modules.  They agree only up to their time stamp
-   (left-over wake-ups of the dead module move the instant the simulation ends at); that is checked by
-   the monitor on the implementation, not proved. *)
+   The tear-down records of the other modules: C13_others_teardown below. *)
 Theorem C13_others_as_if_silent : forall sc m,
   others m (items (events_of (trace sc))) = others m (items (events_of (trace (quieten m sc)))).
 Proof. intros sc m. apply (others_as_if_silent sc m); apply run_terminates. Qed.
 Print Assumptions C13_others_as_if_silent.
+
+(* others_teardown: the tear-down records of the other modules.  For every module j other than m the records of its
+   at_sim_end (callback, the yield that follows, task steps, sends, logs, requests) are the same in the two runs once
+   the time stamp of each call record is blanked ([rt]); [ends_of j] selects j's tear-down record.  The stamps themselves
+   are the instant the simulation ends at, and that may differ: a dead module keeps its timer entries, so the time
+   driver goes on scheduling wake-ups for it which the run in which it fell silent (and was reset) does not have.
+   Proved with: when the event set has run empty no module has a pending timer or next_wakeup (Life/Wake.v), so
+   activating a module for at_sim_end wakes nothing at either instant. *)
+Theorem C13_others_teardown : forall sc m j, j <> m ->
+  map rt (items (ends_of j (trace sc))) = map rt (items (ends_of j (trace (quieten m sc)))).
+Proof. exact others_teardown. Qed.
+Print Assumptions C13_others_teardown.
 
 (* errors_exact_full: the complete error list run() returns, entry by entry.  Entries are (code, module): 0 PanicError,
    1 JoinError Paniced, 2 JoinError NotFinished, 3 JoinError Tokio(cancelled).  First the PanicErrors of the
